@@ -1,6 +1,6 @@
 (* C19 property theorems.  Nothing but statements closed by `exact`, a pin, and Print Assumptions. *)
 From ZV.Common Require Import Base Run.
-From ZV.C19 Require Import Model ProofsBytes ProofsMv ProofsCrash ProofsRo ProofsRoCut.
+From ZV.C19 Require Import Model ProofsBytes ProofsMv ProofsCrash ProofsRo ProofsRoCut ProofsHist.
 Open Scope N_scope.
 
 (* a vector synced from content xs (capacity cap, arbitrary bytes in the unused capacity) reopens as exactly xs *)
@@ -59,6 +59,35 @@ Check mv_sync_crash_safe :
     exists f, d' path = Some f /\
               (mv_open es f = Some (nlen xs, xs) \/ mv_open es f = Some (nlen xs', xs')).
 Print Assumptions mv_sync_crash_safe.
+
+(* whole histories: any number of syncs of arbitrary well-formed contents (whatever pushes, pops, sets, truncates,
+   grows happened in memory between them), interrupted at any point of the concatenated operation sequence - the
+   crash relation ranges over the whole history, including dropped/rolled-back writes of earlier syncs unless
+   fsynced: the vector file reopens as the content on disk before the history or the content of one of its syncs *)
+Theorem mv_history_crash_safe :
+  forall es path tmp s0 (hist : list mv_state) d d',
+    tmp <> path -> st_wf es s0 -> Forall (st_wf es) hist ->
+    d path = Some (st_image es s0) ->
+    crash d (hist_ops path tmp (map (st_image es) hist)) d' ->
+    exists f s, d' path = Some f /\ In s (s0 :: hist) /\
+                mv_open es f = Some (nlen (st_content s), st_content s).
+Proof. exact mv_history_crash_safe_proof. Qed.
+Check mv_history_crash_safe :
+  forall es path tmp s0 (hist : list mv_state) d d',
+    tmp <> path -> st_wf es s0 -> Forall (st_wf es) hist ->
+    d path = Some (st_image es s0) ->
+    crash d (hist_ops path tmp (map (st_image es) hist)) d' ->
+    exists f s, d' path = Some f /\ In s (s0 :: hist) /\
+                mv_open es f = Some (nlen (st_content s), st_content s).
+Print Assumptions mv_history_crash_safe.
+
+(* the crash relation composes over segments whose writes are all fsynced inside the segment *)
+Theorem crash_compose :
+  forall d a b d', sealed a -> crash d (a ++ b) d' -> crash d a d' \/ crash (apply_all d a) b d'.
+Proof. exact crash_app. Qed.
+Check crash_compose :
+  forall d a b d', sealed a -> crash d (a ++ b) d' -> crash d a d' \/ crash (apply_all d a) b d'.
+Print Assumptions crash_compose.
 
 (* the atomic-replace protocol shared by MmapVec::sync, PlainBlobStore::put and SuffixArrayDictionary::save_to_file
    (temporary sibling, fsync, rename): in every crash image every file other than the temporary one is as before,
